@@ -107,6 +107,15 @@ SearchOk(g, vecs, metric, q, k, ef, res) ==
             /\ Len(res) = Min2(k, Cardinality(R))
             /\ \A i \in DOMAIN res : res[i][1] \in R
             /\ (Max2(ef, k) >= Cardinality(R) => ExactWithin(vecs, metric, q, k, res, R))
+\* a quantised index searches the same layered graph for k x rescore-factor candidates and re-ranks them: what is
+\* demanded of it is the count and the membership (the order among equally quantised candidates is not the contract's)
+QuantSearchOk(g, vecs, metric, q, k, res) ==
+  IF DOMAIN vecs = {} THEN res = <<>>
+  ELSE /\ Basic(vecs, metric, q, k, res)
+       /\ \E s \in Starts(g, vecs, metric, q) :
+            LET R == Reach0(g, s) \cap DOMAIN vecs IN
+            /\ Len(res) = Min2(k, Cardinality(R))
+            /\ \A i \in DOMAIN res : res[i][1] \in R
 ExactOk(vecs, metric, q, k, res) == Basic(vecs, metric, q, k, res) /\ ExactWithin(vecs, metric, q, k, res, DOMAIN vecs)
 \* the ideal the approximate structure aims at; a search that is not IdealOk but SearchOk is a legitimate
 \* approximation (reported as information, never as a violation)
